@@ -24,7 +24,7 @@ PROFILE = scenario.profile(
     cons_x0=("margin",),
     # stobads=True keeps the default policy for deterministic targets (the code switches it off once the target is
     # found to be deterministic), so it is inside the statement's domain
-    extra_opts=(("stobads", (True,), 0.15),),
+    extra_opts=(("stobads", (True,), 0.15), ("noise_size", (0.5, 1.0), 0.15)),
 )
 PROFILE_T = dict(PROFILE, maxD=6, extra_budget=(0, 250))
 N = {"quick": 320, "thorough": 5000}
@@ -44,6 +44,10 @@ def oracle(scn, tr):
     rx = np.asarray(r["x"], dtype=float).ravel()
     fval = r["fval"]
     evals += 4
+    # the calls were received by the object the user passed (not by a copy of it)
+    if tr.user_object is not None and tr.user_object.received != len(tr.calls):
+        v.append(viol("a:user-target-object-not-the-one-called", f"{len(tr.calls)} evaluations were made but the callable object the user passed "
+                      f"received {tr.user_object.received} calls (spelling {scn['target'].get('callable')})"))
     # (a) x is an evaluated point
     d = np.max(np.abs(xs - rx) / (wid + 1e-300), axis=1)
     at = np.where(d <= 1e-12)[0]
